@@ -32,7 +32,7 @@ ASSUMPTIONS = ["the link layer reports the Bell state b of pair i and the state 
 
 BELLS = netstack.BELL_NAMES       # PHI_PLUS, PSI_PLUS, PSI_MINUS, PHI_MINUS
 HW = ["generic", "nv", "nv+transpiler"]
-RECV_VARIANTS = ["recv_keep", "recv_keep_with_info", "recv_rsp", "recv_rsp_with_info"]
+RECV_VARIANTS = ["recv_keep", "recv_keep_with_info", "recv_rsp", "recv_rsp_with_info", "recv_keep:post"]
 CREATE_VARIANTS = ["create_keep", "create_keep_with_info"]
 OTHER_STATE = [(3, 3), (5, 3)]      # rot_X(n, d) preparations of the unrelated live qubits
 
@@ -78,7 +78,13 @@ def check_keep(variant: str, hw: str, n: int, bells: Tuple[str, ...], others: in
         kw = {"number": n}
         if recv:
             kw["expect_phi_plus"] = expect
-        res = getattr(epr, variant)(**kw)
+        api = variant
+        if variant == "recv_keep:post":
+            # non-sequential request with a post routine: pairs are handled one by one, each keeps its own virtual qubit
+            api = "recv_keep"
+            kw["post_routine"] = lambda c, q, pair: q.rot_Z(n=0, d=0)
+            kw["sequential"] = False
+        res = getattr(epr, api)(**kw)
         qubits = res[0] if variant.endswith("with_info") else res
         conn.flush()
     except simctl.Blocked as exc:
